@@ -8,6 +8,7 @@ mod c16;
 mod c02;
 mod c03;
 mod c07;
+mod dbg;
 mod net;
 mod netcheck;
 mod rank;
@@ -57,6 +58,10 @@ fn main() {
         "rundigests" => {
             let ctx = Ctx::from_env(&args[2], "quick");
             netcheck::rundigests(&ctx, &args[2], args.get(3).and_then(|s| s.parse().ok()).unwrap_or(2000))
+        }
+        "bigk" => {
+            dbg::bigk(args[2].parse().unwrap(), args[3].parse().unwrap(), args[4].parse().unwrap());
+            0
         }
         "prof" => {
             let p = match args[2].as_str() { "C08" => sim::Profile::C08, "C18" => sim::Profile::C18, "C07" => sim::Profile::C07, _ => sim::Profile::C01 };
